@@ -92,6 +92,8 @@ pub struct HalfConnection {
 impl HalfConnection {
     pub fn new(config: Config) -> Self {
         #[cfg(uflow_verif)]
+        let config = crate::verif::knobs::apply_windows(config);
+        #[cfg(uflow_verif)]
         let verif_id = crate::verif::trace::new_id();
         #[cfg(uflow_verif)]
         {
